@@ -50,6 +50,41 @@ def run(ctx, b, places, entry=None, want_exits=False, start=0, stop=None):
     (the states arriving at `stop` are recorded in the result): the transfer function of one match arm."""
     an = ctx.an(b)
     cfg = an.cfg
+    # Option-typed temporaries through which a tracked place is assigned (`let next = match .. {..}; cur = next;`) are
+    # tracked as well, so that the value chosen on each path is known; results are projected back to `places`
+    n_orig = len(places)
+    places = list(places)
+    grew = True
+    while grew and len(places) < n_orig + 6:
+        grew = False
+        for l in list(places):
+            if isinstance(l, str):
+                continue
+            for d in an.defs_of.get(l, []):
+                if d.kind not in ('assign', 'local') or d.partial or d.bb < 0:
+                    continue
+                t = strip_all(an.def_term(d))
+                src = None
+                if t[0] in ('phi', 'mem'):
+                    src = t[1]
+                elif t[0] == 'rec':
+                    src = an.defs[t[1]].local
+                if src is not None and src not in places and b.local_ty(src).startswith('std::option::Option'):
+                    places.append(src)
+                    grew = True
+        # ... and Option-typed copies *of* a tracked place (e.g. the by-value parameter of an inlined helper, tested there)
+        for d in an.defs:
+            if d.kind not in ('assign', 'local') or d.partial or d.bb < 0 or d.local in places or len(places) >= n_orig + 6:
+                continue
+            if not b.local_ty(d.local).startswith('std::option::Option'):
+                continue
+            t = strip_all(an.def_term(d))
+            src = t[1] if t[0] in ('phi', 'mem') else (an.defs[t[1]].local if t[0] == 'rec' else None)
+            if src is not None and src in places:
+                places.append(d.local)
+                grew = True
+    if entry is not None and len(places) > n_orig:
+        entry = set(tuple(e) + tuple(x) for e in entry for x in _product(len(places) - n_orig))
     events = {}
     for li, l in enumerate(places):
         if isinstance(l, str):
@@ -64,6 +99,15 @@ def run(ctx, b, places, entry=None, want_exits=False, start=0, stop=None):
                 continue        # writing inside the payload does not change the variant
             t = an.call_term(d.bb) if d.kind == 'call' else an.def_term(d)
             events.setdefault((d.bb, d.idx), []).append((li, _classify(an, t, places)))
+        # whole-value stores through a reference to the local (`*r = Some(..)` with r = &mut local, e.g. in an inlined helper)
+        for a, v, pt, kind in an.stores:
+            if kind != 'assign' or a[0] not in ('deref', 'mem'):
+                continue
+            tgt = a
+            while tgt[0] in ('deref', 'ref'):
+                tgt = tgt[1]
+            if tgt == ('mem', l) and not any(pt == (d.bb, d.idx) for d in an.defs_of.get(l, [])):
+                events.setdefault(pt, []).append((li, _classify(an, v, places)))
     F = ctx.F
 
     def exec_block(bb, st):
@@ -146,6 +190,9 @@ def run(ctx, b, places, entry=None, want_exits=False, start=0, stop=None):
                 if st3 not in at.setdefault(y, set()):
                     at[y].add(st3)
                     work.append((y, st3))
+    if len(places) > n_orig:
+        at = {k: set(st[:n_orig] for st in v) for k, v in at.items()}
+        exits = set(st[:n_orig] for st in exits)
     return (at, exits) if want_exits else at
 
 
